@@ -847,8 +847,7 @@ def oracle_life(c, r):
     for i, k in enumerate(calls[1:], 1):
         if k != first:
             lost = sorted(x for x in first["kwargs"] if k["kwargs"].get(x) != first["kwargs"][x])
-            key = K_F19 if (c["backend"] == "recloky" and all(k["kwargs"][x] == "<absent>" for x in lost)
-                            and k["n_jobs"] == first["n_jobs"]) else None
+            key = None      # (F46, loky dropping the kwargs, is fixed: any such loss is a violation again)
             return ("configure call #%d of the same Parallel object (history %s) lost %s: got %s, the object was first configured "
                     "with %s" % (i + 1, c["ops"], lost, {x: k["kwargs"][x] for x in lost}, {x: first["kwargs"][x] for x in lost})), key
     return None, None
@@ -1053,7 +1052,7 @@ def run(ctx):
                 if "harness_error" not in r:
                     life_stats["configure_calls"] += len(r["configure_calls"])
                     passes = ("loky_abort_passes_kwargs" if c["backend"] == "recloky" else "pool_abort_passes_kwargs") if use_mpc \
-                        else ("false" if c["backend"] == "recloky" else "true")
+                        else "true"
                     lexprs.append("show_calls %s [%s]" % (passes, "; ".join(OPC[o] for o in c["ops"])))
                     first = r["configure_calls"][0] if r["configure_calls"] else None
                     lmeta.append((dict(c, env=env), [1 if k == first else 0 for k in r["configure_calls"]], r))
@@ -1103,17 +1102,6 @@ def run(ctx):
     for key, (bad, detail) in findings.items():
         ctx.violation(bad, {"kind": "known-finding", "case": LIFE_WITNESS if detail is None else minimal_replay(detail)}, True,
                       finding_key=key)
-    # F46 witness (C17_object_settings_loky_refuted) must still fail on the implementation
-    wr = run_life_stream({None: [LIFE_WITNESS]})[None][0]
-    wbad, wkey = oracle_life(LIFE_WITNESS, wr)
-    if wkey == K_F19:
-        ctx.violation(wbad, {"kind": "known-finding", "case": LIFE_WITNESS}, True, finding_key=K_F19)
-    elif wbad:
-        ctx.violation(wbad, {"kind": "oracle", "case": LIFE_WITNESS}, True)
-    else:
-        ctx.violation("witness of C17_object_settings_loky_refuted no longer fails on the implementation: the model is stale",
-                      {"kind": "stale-model", "case": LIFE_WITNESS, "key": K_F19}, found_input=False)
-
     if not translator_ok and not disagreements and not problems and proofs_ok:
         ctx.note("translator tie lost, hand-model tie intact")
     ctx.finish({
